@@ -425,7 +425,7 @@ pub fn check_position(p: &Pos, depths: &[u8], rep: &mut Report) -> Result<bool, 
                     return Err(Violation::new(
                         "mate-in-2",
                         &format!("mate-in-2/{shape}"),
-                        format!("forced mate in two exists at {fen} ({}), engine chose {mv} after depths {depths:?}, after which no forced mate is left (stalemate or a reply reaches a dead position)", a.m2.iter().map(|x| x.uci()).collect::<Vec<_>>().join(",")),
+                        format!("forced mate in two exists at {fen} ({}), engine chose {mv} after depths {depths:?}, after which no forced mate is left (stalemate, a reply reaches a dead position, or the opponent now mates by force)", a.m2.iter().map(|x| x.uci()).collect::<Vec<_>>().join(",")),
                         cj,
                     ));
                 }
